@@ -87,4 +87,11 @@ theorem deferred_sites :
       ["src/state.rs", "src/bin/redo/log.rs", "src/bin/redo/ood.rs",
        "src/bin/redo/sources.rs", "src/bin/redo/targets.rs"] := by decide
 
+/-- A fact about one constant of the source (re-extracted on every run), not a theorem about behaviour: writers are
+serialised by waiting for the write lock (`single_writer`), and the wait is bounded by the connection's busy timeout —
+a command gives up with "database is locked" when another one holds the lock longer than that.  The value the rest of
+the argument relies on ("long compared with any transaction of a redo command": a minute) is pinned here; what a
+short timeout does is shown on the implementation by the slow-writer scenarios of tools/c16.py. -/
+theorem busy_timeout_is_a_minute : 60 ≤ RedoModel.Generated.busyTimeoutSecs := by decide
+
 end C16
